@@ -110,7 +110,15 @@ class BytesClass:
 
     def __pyvc_getattr__(self, sx, attr, st, node):
         if attr == "fromhex":
-            return [R(st, Func(lambda sx2, a, k, s, n: fromhex(sx2, a[0].term, s), "bytes.fromhex"))]
+            def _fh(sx2, a, k, s, n):
+                v = a[0]
+                v = sx2.deref(sx2.lift(v) if isinstance(v, Conc) else v, s)
+                if not (isinstance(v, Val) and isinstance(v.ty, V._Str)):
+                    # not statically a str (None, a JSON value, a value without contract): TypeError, or its text is parsed
+                    outs = [R(s.fork(), None, Exc("TypeError"))]
+                    return outs + fromhex(sx2, sx2.coerce_str(v, s).term, s)
+                return fromhex(sx2, v.term, s)
+            return [R(st, Func(_fh, "bytes.fromhex"))]
         raise Unsupported("bytes.%s" % attr, node)
 
     def __pyvc_call__(self, sx, args, kwargs, st, node):
